@@ -25,6 +25,7 @@ class CNode:
     ast: Optional[ast.AST] = None
     stmt: Optional[ast.AST] = None  # enclosing statement (for cond nodes: the if/while)
     loops: Tuple[ast.AST, ...] = ()  # enclosing loop statements, innermost last
+    virtual: bool = False  # atom of a condition that was evaluated earlier and is held in a local (`c = a and b` ... `if c:`)
 
     @property
     def lineno(self) -> int:
@@ -33,6 +34,8 @@ class CNode:
     def expr_root(self) -> Optional[ast.AST]:
         """The AST evaluated *at this node* (not the nested bodies)."""
         a = self.ast
+        if self.virtual:
+            return None  # the expression was evaluated where the local was bound; here only its value is tested
         if self.kind == "for":
             return a.iter
         if self.kind == "with":
@@ -40,7 +43,7 @@ class CNode:
         return a
 
     def __repr__(self) -> str:
-        return f"<{self.kind}#{self.id} L{self.lineno} {unparse(self.expr_root())[:60]}>"
+        return f"<{self.kind}#{self.id} L{self.lineno} {unparse(self.ast)[:60] if self.ast is not None else ''}>"
 
 
 @dataclass
@@ -70,6 +73,8 @@ class CFG:
         self.raise_exit = self._new("raise")  # uncaught raise
         self._loop_stack: List[Tuple[ast.AST, CNode, List]] = []  # (loop stmt, continue target, break frontier)
         self._try_stack: List[List[CNode]] = []  # handler entry placeholders
+        self._ld: Optional["LocalDefs"] = None if isinstance(fn, ast.Lambda) else LocalDefs(fn)
+        self._virtual_depth = 0
         body = fn.body if not isinstance(fn, ast.Lambda) else [ast.Return(value=fn.body, lineno=fn.lineno, col_offset=0)]
         out = self._block(body, [(self.entry, None)])
         self._connect(out, self.exit)
@@ -116,6 +121,19 @@ class CFG:
         if isinstance(expr, ast.UnaryOp) and isinstance(expr.op, ast.Not):
             t, f = self._cond(expr.operand, frontier, stmt)
             return f, t
+        if isinstance(expr, ast.Name) and self._ld is not None and self._virtual_depth < 3:
+            # a guard held in a local: `c = <condition>` (bound exactly once, whole value) ... `if c:` is decomposed like the
+            # condition itself; the atoms are *virtual* (nothing is evaluated here, only the remembered value is tested)
+            d = self._ld.single(expr.id)
+            boolean = d is not None and (isinstance(d[0], (ast.BoolOp, ast.Compare)) or (isinstance(d[0], ast.UnaryOp) and isinstance(d[0].op, ast.Not)))
+            # a call / attribute / subscript held in a local is a guard only if the local is never used as a value
+            valueish = d is not None and isinstance(d[0], (ast.Call, ast.Attribute, ast.Subscript)) and self._only_tested(expr.id)
+            if d and d[0] is not None and d[1] is None and (boolean or valueish):
+                self._virtual_depth += 1
+                try:
+                    return self._cond(d[0], frontier, stmt)
+                finally:
+                    self._virtual_depth -= 1
         if isinstance(expr, ast.Constant):
             n = self._new("cond", expr, stmt)
             self._connect(frontier, n)
@@ -124,9 +142,36 @@ class CFG:
                 return [(n, ("cond", expr, True))], []
             return [], [(n, ("cond", expr, False))]
         n = self._new("cond", expr, stmt)
+        n.virtual = self._virtual_depth > 0
         self._connect(frontier, n)
         self._exc_edges(n)
         return [(n, ("cond", expr, True))], [(n, ("cond", expr, False))]
+
+    def _only_tested(self, name: str) -> bool:
+        """Every load of the local is a truth test (if/while/ifexp/assert test, possibly under not/and/or)."""
+        cache = self.__dict__.setdefault("_only_tested_cache", {})
+        if name in cache:
+            return cache[name]
+        tests: Set[int] = set()
+
+        def mark(e: ast.AST) -> None:
+            if isinstance(e, ast.Name):
+                tests.add(id(e))
+            elif isinstance(e, ast.BoolOp):
+                for v in e.values:
+                    mark(v)
+            elif isinstance(e, ast.UnaryOp) and isinstance(e.op, ast.Not):
+                mark(e.operand)
+
+        loads = []
+        for n in ast.walk(self.fn):
+            if isinstance(n, (ast.If, ast.While, ast.IfExp, ast.Assert)):
+                mark(n.test)
+            if isinstance(n, ast.Name) and n.id == name and isinstance(n.ctx, ast.Load):
+                loads.append(n)
+        ok = bool(loads) and all(id(n) in tests for n in loads)
+        cache[name] = ok
+        return ok
 
     def _simple(self, stmt: ast.AST, frontier, kind: str = "stmt") -> CNode:
         n = self._new(kind, stmt, stmt)
@@ -495,3 +540,21 @@ class LocalDefs:
                     continue
             break
         return cur
+
+
+def expand_test(ld: "LocalDefs", test: ast.AST, depth: int = 3) -> ast.AST:
+    """A branch condition with guards held in locals written out: `c = a and b` ... `if c:` reads as `if a and b:`.
+    Only whole-value, single definitions are followed; the structure (and/or/not) around them is kept.  Syntactic rules that
+    pattern-match `If.test` use this so that binding a condition to a local first does not hide it from them."""
+    if depth <= 0:
+        return test
+    if isinstance(test, ast.Name):
+        d = ld.single(test.id)
+        if d and d[0] is not None and d[1] is None and isinstance(d[0], (ast.BoolOp, ast.Compare, ast.UnaryOp, ast.Call, ast.Attribute, ast.Subscript)):
+            return expand_test(ld, d[0], depth - 1)
+        return test
+    if isinstance(test, ast.BoolOp):
+        return ast.copy_location(ast.BoolOp(op=test.op, values=[expand_test(ld, v, depth) for v in test.values]), test)
+    if isinstance(test, ast.UnaryOp) and isinstance(test.op, ast.Not):
+        return ast.copy_location(ast.UnaryOp(op=test.op, operand=expand_test(ld, test.operand, depth)), test)
+    return test
